@@ -29,8 +29,10 @@ N == Len(Scheds)
 Ids == 1..N
 
 VARIABLES now, running, list, nx, pv, nadded, lpc, lnow, wi, timer,
-          cpc, cop, reply, nops, nstops, jobs, wg, watchers, c
-vars == <<now, running, list, nx, pv, nadded, lpc, lnow, wi, timer, cpc, cop, reply, nops, nstops, jobs, wg, watchers, c>>
+          cpc, cop, reply, nops, nstops, jobs, wg, watchers, c,
+          sch, blk    \* sch[i]: schedule of entry i, blk: ids whose job blocks - filled by the Schedule call (from the
+                      \* constants when model checking, from the recorded call when a trace of the real Cron is replayed)
+vars == <<now, running, list, nx, pv, nadded, lpc, lnow, wi, timer, cpc, cop, reply, nops, nstops, jobs, wg, watchers, c, sch, blk>>
 
 Off == [on |-> FALSE, dl |-> 0, fired |-> FALSE, buf |-> FALSE, val |-> 0]
 NoOp == [op |-> "none", id |-> 0]
@@ -42,25 +44,31 @@ Init == /\ now = 0 /\ running = FALSE /\ list = << >> /\ nx = [i \in Ids |-> 0] 
         /\ nadded = 0 /\ lpc = "off" /\ lnow = 0 /\ wi = 0 /\ timer = Off
         /\ cpc = "idle" /\ cop = NoOp /\ reply = << >> /\ nops = 0 /\ nstops = 0
         /\ jobs = << >> /\ wg = 0 /\ watchers = {} /\ c = CInit(0)
+        /\ sch = [i \in Ids |-> [p |-> 0, ph |-> 0]] /\ blk = {}
 
-SNext(i, t) == NextAct(Scheds[i].p, Scheds[i].ph, t)
+SNext(i, t) == NextAct(sch[i].p, sch[i].ph, t)
 Without(s, x) == SelectSeq(s, LAMBDA y : y # x)
 Snapshot == [k \in 1..Len(list) |-> <<list[k], nx[list[k]], pv[list[k]]>>]
 
-(* byTime: zero last; ties by id to keep the model deterministic *)
-Less(i, j) == IF nx[i] = 0 THEN FALSE ELSE IF nx[j] = 0 THEN TRUE ELSE nx[i] < nx[j] \/ (nx[i] = nx[j] /\ i < j)
+(* byTime: zero last.  sort.Sort on fewer than 13 elements is an insertion sort, hence stable: entries with equal *)
+(* Next (or both zero) keep the order they had in the list.                                                     *)
 Range(s) == {s[k] : k \in 1..Len(s)}
+Pos(s, x) == CHOOSE k \in 1..Len(s) : s[k] = x
+Before(i, j) == IF nx[i] = 0 THEN FALSE ELSE IF nx[j] = 0 THEN TRUE ELSE nx[i] < nx[j]      \* byTime.Less
+Less(s, i, j) == Before(i, j) \/ (~Before(j, i) /\ Pos(s, i) < Pos(s, j))
 Sorted(s) == CHOOSE t \in [1..Len(s) -> Range(s)] :
-               /\ \A a, b \in 1..Len(s) : a < b => (t[a] # t[b] /\ ~Less(t[b], t[a]))
+               /\ \A a, b \in 1..Len(s) : a < b => (t[a] # t[b] /\ ~Less(s, t[b], t[a]))
 
 (* ---------------- the caller ---------------- *)
 Begin(op, id) == /\ cpc = "idle" /\ nops < MaxOps /\ nops' = nops + 1
                  /\ cop' = [op |-> op, id |-> id]
 
-CallSched ==
+CallSchedWith(p, ph, b) ==
   /\ nadded < N /\ Begin("sched", nadded + 1) /\ nadded' = nadded + 1
+  /\ sch' = [sch EXCEPT ![nadded + 1] = [p |-> p, ph |-> ph]]
+  /\ blk' = IF b THEN blk \cup {nadded + 1} ELSE blk
   /\ LET id == nadded + 1
-         call == [ev |-> "sched_call", id |-> id, p |-> Scheds[id].p, ph |-> Scheds[id].ph]
+         call == [ev |-> "sched_call", id |-> id, p |-> p, ph |-> ph]
      IN IF running
           THEN /\ cpc' = "sending" /\ c' = Feed(c, <<call>>) /\ UNCHANGED list
           ELSE /\ list' = Append(list, id) /\ cpc' = "idle"
@@ -74,20 +82,20 @@ CallRemove(id) ==
           THEN /\ cpc' = "sending" /\ c' = Feed(c, <<call>>) /\ UNCHANGED list
           ELSE /\ list' = Without(list, id) /\ cpc' = "idle"
                /\ c' = Feed(c, <<call, [ev |-> "remove_ret", id |-> id]>>)
-  /\ UNCHANGED <<now, running, nx, pv, nadded, lpc, lnow, wi, timer, reply, nstops, jobs, wg, watchers>>
+  /\ UNCHANGED <<now, running, nx, pv, nadded, lpc, lnow, wi, timer, reply, nstops, jobs, wg, watchers, sch, blk>>
 
 CallEntries ==
   /\ Begin("entries", 0)
   /\ IF running
        THEN /\ cpc' = "sending" /\ c' = Feed(c, <<[ev |-> "entries_call"]>>)
        ELSE /\ cpc' = "idle" /\ c' = Feed(c, <<[ev |-> "entries_call"], [ev |-> "entries_ret", list |-> Snapshot]>>)
-  /\ UNCHANGED <<now, running, list, nx, pv, nadded, lpc, lnow, wi, timer, reply, nstops, jobs, wg, watchers>>
+  /\ UNCHANGED <<now, running, list, nx, pv, nadded, lpc, lnow, wi, timer, reply, nstops, jobs, wg, watchers, sch, blk>>
 
 CallStart ==
   /\ Begin("start", 0) /\ cpc' = "idle"
   /\ c' = Feed(c, <<[ev |-> "start"]>>)
   /\ IF running THEN UNCHANGED <<running, lpc>> ELSE running' = TRUE /\ lpc' = "init"
-  /\ UNCHANGED <<now, list, nx, pv, nadded, lnow, wi, timer, reply, nstops, jobs, wg, watchers>>
+  /\ UNCHANGED <<now, list, nx, pv, nadded, lnow, wi, timer, reply, nstops, jobs, wg, watchers, sch, blk>>
 
 CallStop ==
   /\ Begin("stop", nstops + 1) /\ nstops' = nstops + 1
@@ -96,7 +104,7 @@ CallStop ==
           THEN /\ cpc' = "sending" /\ c' = Feed(c, <<[ev |-> "stop_call", k |-> k]>>) /\ UNCHANGED watchers
           ELSE /\ cpc' = "idle" /\ watchers' = watchers \cup {k}
                /\ c' = Feed(c, <<[ev |-> "stop_call", k |-> k], [ev |-> "stop_ret", k |-> k]>>)
-  /\ UNCHANGED <<now, running, list, nx, pv, nadded, lpc, lnow, wi, timer, reply, jobs, wg>>
+  /\ UNCHANGED <<now, running, list, nx, pv, nadded, lpc, lnow, wi, timer, reply, jobs, wg, sch, blk>>
 
 (* the call returns (after the loop took the rendezvous) *)
 Ret ==
@@ -106,15 +114,16 @@ Ret ==
        [] cop.op = "entries" -> c' = Feed(c, <<[ev |-> "entries_ret", list |-> reply]>>) /\ UNCHANGED <<running, watchers>>
        [] cop.op = "stop"    -> /\ c' = Feed(c, <<[ev |-> "stop_ret", k |-> cop.id]>>)
                                 /\ running' = FALSE /\ watchers' = watchers \cup {cop.id}
-  /\ UNCHANGED <<now, list, nx, pv, nadded, lpc, lnow, wi, timer, cop, reply, nops, nstops, jobs, wg>>
+  /\ UNCHANGED <<now, list, nx, pv, nadded, lpc, lnow, wi, timer, cop, reply, nops, nstops, jobs, wg, sch, blk>>
 
+CallSched == nadded < N /\ CallSchedWith(Scheds[nadded + 1].p, Scheds[nadded + 1].ph, (nadded + 1) \in Blocking)
 Call == CallSched \/ CallEntries \/ CallStart \/ CallStop \/ \E id \in Ids : CallRemove(id)
 
 (* ---------------- run() ---------------- *)
 LInit == /\ lpc = "init" /\ lnow' = now
          /\ nx' = [i \in Ids |-> IF i \in Range(list) THEN SNext(i, now) ELSE nx[i]]
          /\ lpc' = "sort"
-         /\ UNCHANGED <<now, running, list, pv, nadded, wi, timer, cpc, cop, reply, nops, nstops, jobs, wg, watchers, c>>
+         /\ UNCHANGED <<now, running, list, pv, nadded, wi, timer, cpc, cop, reply, nops, nstops, jobs, wg, watchers, c, sch, blk>>
 
 (* sort, arm the timer for entries[0].Next - now (relative to the clock's current time) *)
 LSort == /\ lpc = "sort" /\ list' = Sorted(list)
@@ -122,11 +131,11 @@ LSort == /\ lpc = "sort" /\ list' = Sorted(list)
                      ELSE [on |-> TRUE, dl |-> now + (nx[Sorted(list)[1]] - lnow), fired |-> FALSE,
                            buf |-> FALSE, val |-> 0]
          /\ lpc' = "select"
-         /\ UNCHANGED <<now, running, nx, pv, nadded, lnow, wi, cpc, cop, reply, nops, nstops, jobs, wg, watchers, c>>
+         /\ UNCHANGED <<now, running, nx, pv, nadded, lnow, wi, cpc, cop, reply, nops, nstops, jobs, wg, watchers, c, sch, blk>>
 
 SelTimer == /\ lpc = "select" /\ timer.on /\ timer.buf
             /\ lnow' = timer.val /\ timer' = Off /\ lpc' = "wake" /\ wi' = 1
-            /\ UNCHANGED <<now, running, list, nx, pv, nadded, cpc, cop, reply, nops, nstops, jobs, wg, watchers, c>>
+            /\ UNCHANGED <<now, running, list, nx, pv, nadded, cpc, cop, reply, nops, nstops, jobs, wg, watchers, c, sch, blk>>
 
 (* the leftover timer is stopped and drained before the next pass *)
 Drained == Off
@@ -134,17 +143,17 @@ Drained == Off
 SelAdd == /\ lpc = "select" /\ cpc = "sending" /\ cop.op = "sched"
           /\ lnow' = now /\ nx' = [nx EXCEPT ![cop.id] = SNext(cop.id, now)]
           /\ list' = Append(list, cop.id) /\ timer' = Drained /\ lpc' = "sort" /\ cpc' = "got"
-          /\ UNCHANGED <<now, running, pv, nadded, wi, cop, reply, nops, nstops, jobs, wg, watchers, c>>
+          /\ UNCHANGED <<now, running, pv, nadded, wi, cop, reply, nops, nstops, jobs, wg, watchers, c, sch, blk>>
 SelRemove == /\ lpc = "select" /\ cpc = "sending" /\ cop.op = "remove"
              /\ lnow' = IF Variant = "stalenow" THEN lnow ELSE now
              /\ list' = Without(list, cop.id) /\ timer' = Drained /\ lpc' = "sort" /\ cpc' = "got"
-             /\ UNCHANGED <<now, running, nx, pv, nadded, wi, cop, reply, nops, nstops, jobs, wg, watchers, c>>
+             /\ UNCHANGED <<now, running, nx, pv, nadded, wi, cop, reply, nops, nstops, jobs, wg, watchers, c, sch, blk>>
 SelSnapshot == /\ lpc = "select" /\ cpc = "sending" /\ cop.op = "entries"
                /\ reply' = Snapshot /\ cpc' = "got"
-               /\ UNCHANGED <<now, running, list, nx, pv, nadded, lpc, lnow, wi, timer, cop, nops, nstops, jobs, wg, watchers, c>>
+               /\ UNCHANGED <<now, running, list, nx, pv, nadded, lpc, lnow, wi, timer, cop, nops, nstops, jobs, wg, watchers, c, sch, blk>>
 SelStop == /\ lpc = "select" /\ cpc = "sending" /\ cop.op = "stop"
            /\ timer' = Off /\ lpc' = "off" /\ cpc' = "got"
-           /\ UNCHANGED <<now, running, list, nx, pv, nadded, lnow, wi, cop, reply, nops, nstops, jobs, wg, watchers, c>>
+           /\ UNCHANGED <<now, running, list, nx, pv, nadded, lnow, wi, cop, reply, nops, nstops, jobs, wg, watchers, c, sch, blk>>
 
 (* wake: every entry (in sorted order) whose Next is not after now is started *)
 LWake == /\ lpc = "wake"
@@ -156,7 +165,7 @@ LWake == /\ lpc = "wake"
                    /\ c' = Feed(c, <<[ev |-> "run", id |-> id]>>)
                    /\ wi' = wi + 1 /\ UNCHANGED lpc
               ELSE /\ lpc' = "sort" /\ UNCHANGED <<jobs, wg, pv, nx, c, wi>>
-         /\ UNCHANGED <<now, running, list, nadded, lnow, timer, cpc, cop, reply, nops, nstops, watchers>>
+         /\ UNCHANGED <<now, running, list, nadded, lnow, timer, cpc, cop, reply, nops, nstops, watchers, sch, blk>>
 
 Loop == LInit \/ LSort \/ SelTimer \/ SelAdd \/ SelRemove \/ SelSnapshot \/ SelStop \/ LWake
 
@@ -164,21 +173,21 @@ Loop == LInit \/ LSort \/ SelTimer \/ SelAdd \/ SelRemove \/ SelSnapshot \/ SelS
 SetSt(j, st) == [jobs EXCEPT ![j].st = st]
 JBegin(j) == /\ jobs[j].st = "spawned"
              /\ wg' = IF Variant = "lateadd" THEN wg + 1 ELSE wg
-             /\ jobs' = SetSt(j, IF jobs[j].id \in Blocking THEN "blocked" ELSE "running")
+             /\ jobs' = SetSt(j, IF jobs[j].id \in blk THEN "blocked" ELSE "running")
              /\ c' = Feed(c, <<[ev |-> "jobstart", id |-> jobs[j].id]>>)
-             /\ UNCHANGED <<now, running, list, nx, pv, nadded, lpc, lnow, wi, timer, cpc, cop, reply, nops, nstops, watchers>>
+             /\ UNCHANGED <<now, running, list, nx, pv, nadded, lpc, lnow, wi, timer, cpc, cop, reply, nops, nstops, watchers, sch, blk>>
 JUnblock(j) == /\ jobs[j].st = "blocked" /\ jobs' = SetSt(j, "running")
-               /\ UNCHANGED <<now, running, list, nx, pv, nadded, lpc, lnow, wi, timer, cpc, cop, reply, nops, nstops, wg, watchers, c>>
+               /\ UNCHANGED <<now, running, list, nx, pv, nadded, lpc, lnow, wi, timer, cpc, cop, reply, nops, nstops, wg, watchers, c, sch, blk>>
 JEnd(j) == /\ jobs[j].st = "running" /\ wg' = wg - 1
            /\ jobs' = [k \in 1..(Len(jobs) - 1) |-> IF k < j THEN jobs[k] ELSE jobs[k + 1]]
            /\ c' = Feed(c, <<[ev |-> "jobend", id |-> jobs[j].id]>>)
-           /\ UNCHANGED <<now, running, list, nx, pv, nadded, lpc, lnow, wi, timer, cpc, cop, reply, nops, nstops, watchers>>
+           /\ UNCHANGED <<now, running, list, nx, pv, nadded, lpc, lnow, wi, timer, cpc, cop, reply, nops, nstops, watchers, sch, blk>>
 WDone(k) == /\ k \in watchers /\ wg = 0 /\ watchers' = watchers \ {k}
             /\ c' = Feed(c, <<[ev |-> "stopctx_done", k |-> k]>>)
-            /\ UNCHANGED <<now, running, list, nx, pv, nadded, lpc, lnow, wi, timer, cpc, cop, reply, nops, nstops, jobs, wg>>
+            /\ UNCHANGED <<now, running, list, nx, pv, nadded, lpc, lnow, wi, timer, cpc, cop, reply, nops, nstops, jobs, wg, sch, blk>>
 Job == \E j \in 1..Len(jobs) : JBegin(j) \/ JEnd(j)
 Unblock == \E j \in 1..Len(jobs) : JUnblock(j)
-Waiter == \E k \in 1..MaxOps : WDone(k)
+Waiter == \E k \in watchers : WDone(k)
 
 (* ---------------- the fake clock ---------------- *)
 Pending == timer.on /\ (timer.buf \/ (~timer.fired /\ timer.dl <= now))
@@ -188,7 +197,7 @@ Step(d) == /\ cpc = "idle" /\ Parked /\ now + d <= MaxNow
            /\ timer' = IF timer.on /\ ~timer.fired /\ timer.dl <= now + d
                          THEN [timer EXCEPT !.fired = TRUE, !.buf = TRUE, !.val = now + d] ELSE timer
            /\ c' = Feed(c, <<[ev |-> "adv", now |-> now + d]>>)
-           /\ UNCHANGED <<running, list, nx, pv, nadded, lpc, lnow, wi, cpc, cop, reply, nops, nstops, jobs, wg, watchers>>
+           /\ UNCHANGED <<running, list, nx, pv, nadded, lpc, lnow, wi, cpc, cop, reply, nops, nstops, jobs, wg, watchers, sch, blk>>
 Adv == \E d \in 1..MaxStep : ~Pending /\ Step(d)
 Nudge == timer.on /\ ~timer.fired /\ timer.dl <= now /\ Step(0)
 
@@ -197,7 +206,7 @@ Quiet == /\ cpc = "idle" /\ Parked /\ ~Pending
          /\ \A j \in 1..Len(jobs) : jobs[j].st = "blocked"
          /\ (watchers = {} \/ wg > 0)
 Quiesce == /\ Quiet /\ c' = Feed(c, <<[ev |-> "quiescent"]>>)
-           /\ UNCHANGED <<now, running, list, nx, pv, nadded, lpc, lnow, wi, timer, cpc, cop, reply, nops, nstops, jobs, wg, watchers>>
+           /\ UNCHANGED <<now, running, list, nx, pv, nadded, lpc, lnow, wi, timer, cpc, cop, reply, nops, nstops, jobs, wg, watchers, sch, blk>>
 
 Next == Call \/ Ret \/ Loop \/ Job \/ Unblock \/ Waiter \/ Adv \/ Nudge \/ Quiesce
 Spec == Init /\ [][Next]_vars /\ WF_vars(Loop) /\ WF_vars(Ret) /\ WF_vars(Job) /\ WF_vars(Nudge) /\ WF_vars(Waiter)
